@@ -88,7 +88,12 @@ Fixpoint load_loop (captured : sess) (s1 s2 : subnet) (rs : list lease_rec) (tt 
       else match r_cid v with
       | [] => load_loop captured s1 s2 rest tt                                   (* invalid clientID *)
       | _ =>
-          let sub := if captured (r_mac v) then (if contains (s_lan (n_cfg s2)) (r_ip v) then 2 else 1) else 1 in
+          (* net2 only for a usable host address of net2: inside, not its network or broadcast address (/repo d15f9fe) *)
+          let sub := if captured (r_mac v)
+                     then (if contains (s_lan (n_cfg s2)) (r_ip v)
+                              && negb (addr_eqb (r_ip v) (paddr (s_lan (n_cfg s2))))
+                              && negb (addr_eqb (r_ip v) (n_bcast s2)) then 2 else 1)
+                     else 1 in
           load_loop captured s1 s2 rest (tinsert {| l_rec := v; l_sub := sub |} tt)
       end
   end.
